@@ -26,7 +26,7 @@ import (
 // ---- C04 / C06 / C07: connection life cycles, shutdown, descriptor ownership -------------
 
 var lifePlans = []string{
-	"peerFIN", "peerRST", "peerHalf", "backpressure", "actOpen", "actTraffic", "connClose", "closeCB", "loopClose", "loopCloseMore",
+	"peerFIN", "peerRST", "peerHalf", "backpressure", "dupHeld", "actOpen", "actTraffic", "connClose", "closeCB", "loopClose", "loopCloseMore",
 	"loopCloseOther", "writeFail", "shutdown", "raceFINClose", "raceActRST", "quiet", "stale", "openReplyClose",
 }
 
@@ -184,6 +184,16 @@ func (s *lifeScenario) onTraffic(cs *connState, c gnet.Conn) gnet.Action {
 				}
 				s.key(s.c.class() + "|loopCloseOther-executed")
 			}
+		}
+	case "dupHeld":
+		if n == 1 {
+			// the application keeps a duplicate of the descriptor beyond the life of the connection
+			if fd, err := c.Dup(); err == nil {
+				vsys.Disown(fd, "Conn.Dup")
+				d.dupFds = append(d.dupFds, fd)
+			}
+			cs.armedLocal.Store(true)
+			return gnet.Close
 		}
 	case "backpressure":
 		if n == 1 {
@@ -351,6 +361,9 @@ func runLifeCase(c cfg, seed uint64, o lifeOpts, keys map[string]struct{}) (eval
 		},
 	})
 	s.mon = mon
+	if c.Ticker {
+		mon.slowTick = time.Duration(r.Intn(3000)) * time.Microsecond
+	}
 	vsys.ResetAlarms()
 	vsys.ResetLedger()
 	vsys.PlanClear()
@@ -541,6 +554,28 @@ func runLifeCase(c cfg, seed uint64, o lifeOpts, keys map[string]struct{}) (eval
 				send("mmm")
 				setLinger0(conn)
 				closePeer(conn)
+			case "dupHeld":
+				send("d")
+				// the connection is closed by the handler, the duplicate keeps the socket alive: keep talking to it
+				ok, _ := waitCond(3*time.Second, func() bool { return atomic.LoadInt32(&cs.state) == 2 })
+				if ok {
+					for k := 0; k < 5; k++ {
+						send("more-data-for-the-duplicate")
+						time.Sleep(300 * time.Microsecond)
+					}
+					for _, fd := range d.dupFds {
+						// the duplicate is the application's: it must still be open, the same socket, and readable
+						buf := make([]byte, 256)
+						_ = unix.SetNonblock(fd, true)
+						n, err := unix.Read(fd, buf)
+						if err != nil || n <= 0 {
+							mon.violate("C07 descriptor handed to the user (Conn.Dup) is unusable after the connection closed", fmt.Sprintf("read on the duplicate fd %d: (%d,%v)", fd, n, err))
+						}
+						vsys.ForeignDel(fd)
+						_ = unix.Close(fd)
+					}
+					s.key(c.class() + "|dup-held-across-close")
+				}
 			case "backpressure":
 				send("b") // the handler answers with 3 MiB which this peer never reads; it stays open until the engine ends
 			case "quiet", "shutdown":
